@@ -6,7 +6,20 @@
 // cached policies, and wait for an identity fetch the resolver itself started.
 package consul
 
-import "github.com/hashicorp/consul/agent/structs"
+import (
+	"fmt"
+	"io"
+	"sync/atomic"
+	"time"
+
+	"github.com/hashicorp/go-hclog"
+	"github.com/hashicorp/raft"
+
+	"github.com/hashicorp/consul/agent/consul/fsm"
+	"github.com/hashicorp/consul/agent/consul/state"
+	"github.com/hashicorp/consul/agent/structs"
+	"github.com/hashicorp/consul/agent/token"
+)
 
 // VerifC09CachedIdentity returns the identity cached for the secret, if any (regardless of age).
 func (r *ACLResolver) VerifC09CachedIdentity(secret string) (structs.ACLIdentity, bool) {
@@ -26,4 +39,93 @@ func (r *ACLResolver) VerifC09WaitIdentityFetch(secret string) {
 // VerifC09ForgetPolicy removes a policy from the resolver's policy cache.
 func (r *ACLResolver) VerifC09ForgetPolicy(id string) {
 	r.cache.RemovePolicy(id)
+}
+
+// VerifC09Server is a Server reduced to what the read endpoints, Server.blockingQuery /
+// blockingquery.Query, Server.SetQueryMeta (maskResultsFilteredByACLs) and Server.filterACL touch:
+// the real FSM/state store, a real single-node in-memory raft, the configuration defaults, and a
+// real ACLResolver with ACLs ENABLED over the backend the harness supplies.  The endpoint structs
+// are the real ones (Internal.NodeDump/ServiceDump, Catalog.ListNodes/ListServices, KVS.List run
+// unmodified).  Nothing here changes the behaviour of the package.
+type VerifC09Server struct {
+	Srv      *Server
+	Internal *Internal
+	Catalog  *Catalog
+	KVS      *KVS
+	raft     *raft.Raft
+}
+
+func VerifC09NewServer(backend ACLResolverBackend, tokenTTL time.Duration, down string) (*VerifC09Server, error) {
+	logger := hclog.NewInterceptLogger(&hclog.LoggerOptions{Output: io.Discard})
+	f, err := fsm.New(nil, logger)
+	if err != nil {
+		return nil, err
+	}
+	rc := raft.DefaultConfig()
+	rc.LocalID = "c09"
+	rc.HeartbeatTimeout = 50 * time.Millisecond
+	rc.ElectionTimeout = 50 * time.Millisecond
+	rc.LeaderLeaseTimeout = 50 * time.Millisecond
+	rc.CommitTimeout = 5 * time.Millisecond
+	rc.Logger = logger
+	store := raft.NewInmemStore()
+	snaps := raft.NewInmemSnapshotStore()
+	addr, trans := raft.NewInmemTransport("c09")
+	if err := raft.BootstrapCluster(rc, store, store, snaps, trans, raft.Configuration{
+		Servers: []raft.Server{{ID: "c09", Address: addr}}}); err != nil {
+		return nil, err
+	}
+	r, err := raft.NewRaft(rc, &raft.MockFSM{}, store, store, snaps, trans)
+	if err != nil {
+		return nil, err
+	}
+	deadline := time.Now().Add(20 * time.Second)
+	for r.State() != raft.Leader {
+		if time.Now().After(deadline) {
+			return nil, fmt.Errorf("no raft leader")
+		}
+		time.Sleep(5 * time.Millisecond)
+	}
+	cfg := DefaultConfig()
+	cfg.Datacenter = "dc1"
+	cfg.PrimaryDatacenter = "dc1"
+	cfg.ACLsEnabled = true
+	res, err := NewACLResolver(&ACLResolverConfig{
+		Config: ACLResolverSettings{ACLsEnabled: true, Datacenter: "dc1", NodeName: "c09",
+			ACLPolicyTTL: 30 * time.Second, ACLTokenTTL: tokenTTL, ACLRoleTTL: 30 * time.Second,
+			ACLDownPolicy: down, ACLDefaultPolicy: "deny"},
+		Logger:      logger,
+		CacheConfig: &structs.ACLCachesConfig{Identities: 64, Policies: 64, ParsedPolicies: 64, Authorizers: 64, Roles: 64},
+		Backend:     backend,
+		Tokens:      new(token.Store),
+	})
+	if err != nil {
+		return nil, err
+	}
+	s := &Server{
+		config:      cfg,
+		fsm:         f,
+		raft:        r,
+		logger:      logger,
+		loggers:     newLoggerStore(logger),
+		leaveCh:     make(chan struct{}),
+		shutdownCh:  make(chan struct{}),
+		ACLResolver: res,
+	}
+	return &VerifC09Server{Srv: s, raft: r,
+		Internal: &Internal{srv: s, logger: logger},
+		Catalog:  &Catalog{srv: s, logger: logger},
+		KVS:      &KVS{srv: s, logger: logger},
+	}, nil
+}
+
+func (v *VerifC09Server) Store() *state.Store { return v.Srv.fsm.State() }
+
+// Blocking is the number of queries inside blockingquery.Query's loop.
+func (v *VerifC09Server) Blocking() uint64 { return atomic.LoadUint64(&v.Srv.queriesBlocking) }
+
+func (v *VerifC09Server) Close() {
+	close(v.Srv.shutdownCh)
+	v.raft.Shutdown()
+	v.Srv.ACLResolver.Close()
 }
